@@ -12,8 +12,7 @@ Theorem C13_source_shape :
   GenC13.goal_is_max_quot_1 = true /\
   GenC13.peer_count_starts_at_1 = true /\ GenC13.callback_registered = true /\
   length GenC13.goal_recorded_when_use_cluster_size = 3%nat /\
-  GenC13.create_updates_peer_counts = true /\ GenC13.total_initial_goal = true /\
-  GenC13.ema_initial_goal = true /\ GenC13.windowed_initial_goal = true /\
+  GenC13.create_updates_peer_counts = true /\
   GenC12.key_format_whole = true.
 Proof. repeat split; reflexivity. Qed.
 Print Assumptions C13_source_shape.
